@@ -9,6 +9,9 @@ import MosnVerif.Model.DispatchCtxSpec
 import MosnVerif.Lemmas.FrameOwn
 import MosnVerif.Lemmas.H1Seg
 import MosnVerif.Lemmas.H1SegStable
+import MosnVerif.Lemmas.H1Continue
+import MosnVerif.Lemmas.BoltHandover
+import MosnVerif.Lemmas.CheckedMatchEq
 /-!
 # C07 — message extraction is independent of how TCP segments the byte stream (property theorems only)
 
@@ -639,5 +642,235 @@ def h1Put : Bytes := [80,85,84,32,47,120,32,72,84,84,80,47,49,46,49,13,10,84,114
 example : h1Hdr false h1Put = .len 59 := by decide
 
 end Http1Queue
+
+/-! ### HTTP/1 `Expect: 100-continue`: the two-phase read of the server serve loop (kind `h1seg`, side `exp`;
+Model/H1Continue over Gen/H1Continue) -/
+section Http1Continue
+open MosnVerif.Model.H1Seg MosnVerif.Model.H1Continue MosnVerif.Lemmas.H1Continue
+
+/-- regenerated from `serverStreamConnection.serve`: the continue branch is conditional on `err == nil` and
+`request.MayContinue()` ALONE (no other conjunct, no look at the reader such as `Buffered()`), nothing between
+`ReadLimitBody` and `ContinueReadBody` destroys or replaces the connection's reader, `ContinueReadBody` is called once,
+on `conn.br` — the reader `ReadLimitBody` was given — and its error reaches the `if err != nil { …; return }` that follows
+the branch. -/
+theorem http1_continue_two_phase_regenerated :
+    contPlan.guarded = false ∧ contPlan.resetBetween = false ∧ contErrHandled = true := by decide
+
+theorem http1_continue_plan_faithful : Faithful contPlan :=
+  ⟨http1_continue_two_phase_regenerated.1, http1_continue_two_phase_regenerated.2.1⟩
+
+/-- with the regenerated continue branch the two-phase loop over the reader queue (phase 1 may return behind the head,
+phase 2 may find the body buffered, partly buffered or not yet there; serve() may be blocked inside `ContinueReadBody`
+across reads) IS the generic dispatch loop of the composed parser, seen through `view` -/
+theorem http1_continue_refines_dispatch {H B : Type} (p : Parser H B) (hp : PStable p) (chunks : List Bytes) :
+    runC contPlan p chunks = view p (run (compose contPlan p) chunks) :=
+  runC_view contPlan http1_continue_plan_faithful p hp chunks
+
+/-- **http1_continue_segmentation_independent**: for EVERY pair of fasthttp oracles (`ReadLimitBody`: need more / error /
+whole request / head only = `MayContinue`; `ContinueReadBody`: need more / error / body of `m ≥ 0` bytes) that is
+prefix-stable, every byte stream of pipelined requests — any of them with `Expect: 100-continue` — and EVERY chunking of
+it, the serve loop hands on the same requests (heads, bodies, which of them were continued, interim responses and
+`Expect` deletions per request), ends with the same bytes in the reader, the same pending head (serve() inside
+`ContinueReadBody`) and the same failed flag as when the whole stream arrives in one read.
+Outside the contract (KNOWN_FINDINGS): the multiplicity of TRAILER header entries (fasthttp `ReadTrailer`), see
+`trailer_multiplicity_depends_on_reads`. -/
+theorem http1_continue_segmentation_independent {H B : Type} (p : Parser H B) (hp : PStable p) (chunks : List Bytes) :
+    runC contPlan p chunks = runC contPlan p [chunks.flatten] := by
+  rw [http1_continue_refines_dispatch p hp, http1_continue_refines_dispatch p hp,
+    segmentation_independent _ (compose_stable contPlan p hp) chunks]
+
+theorem http1_continue_segmentation_irrelevant {H B : Type} (p : Parser H B) (hp : PStable p) (c1 c2 : List Bytes)
+    (h : c1.flatten = c2.flatten) : runC contPlan p c1 = runC contPlan p c2 := by
+  rw [http1_continue_segmentation_independent p hp c1, http1_continue_segmentation_independent p hp c2, h]
+
+/-- an Expect request whose head `hb` phase 1 accepts and whose body bytes `bb` phase 2 accepts is accepted as ONE message
+consuming exactly `hb ++ bb`, whatever follows -/
+theorem expect_request_accepted {H B : Type} (pl : Plan) (p : Parser H B) (hp : PStable p) (hb bb : Bytes) (h : H) (b : B)
+    (h1 : p.rl hb = .head h hb.length) (h2 : p.cb h bb = .frame b bb.length) :
+    compose pl p (hb ++ bb) = .frame (Msg.cont pl h b) (hb ++ bb).length := by
+  unfold compose
+  rw [hp.headExt hb h hb.length bb h1]
+  simp [h2]
+
+/-- **continue_body_attributed_to_its_request**: a stream made of requests each of which is accepted in isolation
+consuming exactly its own bytes (an Expect request: head by phase 1 + body by phase 2, `expect_request_accepted`),
+followed by an incomplete tail, delivered in ANY chunking — body in the read that carried the end of the head,
+straddling reads, or later — yields exactly those requests with exactly their bodies, in order, each once: no body byte
+is lost, handed on twice, or parsed as (part of) the next request's head; the loop ends standing on the tail (inside
+`ContinueReadBody` when the tail is a complete Expect head). -/
+theorem continue_body_attributed_to_its_request {H B : Type} (p : Parser H B) (hp : PStable p)
+    (fs : List (Bytes × Msg H B)) (t : Bytes)
+    (hv : ∀ f ∈ fs, compose contPlan p f.1 = .frame f.2 f.1.length)
+    (ht : t = [] ∨ compose contPlan p t = .needMore)
+    (chunks : List Bytes) (hc : chunks.flatten = (fs.map (·.1)).flatten ++ t) :
+    runC contPlan p chunks =
+      { buf := (split p t).2, pend := (split p t).1, out := fs.map (·.2), failed := false } := by
+  have hs := compose_stable contPlan p hp
+  rw [http1_continue_refines_dispatch p hp, run_eq_feed _ hs chunks, hc, feed_eq]
+  simp only [Conn.init, Bool.false_eq_true, ↓reduceIte, List.nil_append]
+  rw [drainAll_validF _ hs fs t hv ht]
+  simp [view]
+
+/-- **expect_removed_once**: for EVERY continue branch (plan), every oracle pair, every stream and chunking: a request
+that is handed on had its `Expect` header deleted and an interim response written exactly when its continue phase ran —
+once each when the branch contains the statement, never otherwise; a request read in one phase is untouched. -/
+theorem expect_removed_once {H B : Type} (pl : Plan) (p : Parser H B) (chunks : List Bytes) :
+    ∀ m ∈ (runC pl p chunks).out,
+      (m.continued = false ∧ m.interims = 0 ∧ m.dels = 0) ∨
+      (m.continued = true ∧ m.interims = (if pl.writes then 1 else 0) ∧ m.dels = (if pl.dels then 1 else 0)) :=
+  runC_msgOk pl p chunks
+
+/-- the reference parser of the generated shapes (head up to CRLFCRLF; `Expect` with the exact value `100-continue`;
+Content-Length, chunked with trailers, no body header) is such an oracle pair -/
+theorem http1_continue_reference_stable : PStable refParser := refParser_stable
+
+/-- the executable predicate `specH1X` holds of the model: in every chunking the model hands on what it hands on for the
+whole stream, which is what the reference finds in the stream -/
+theorem spec_h1cont_holds_on_model (chunks : List Bytes) (full : Msg Bytes Bytes → String) :
+    let m := runC contPlan refParser chunks
+    let w := runC contPlan refParser [chunks.flatten]
+    specH1X chunks.flatten (w.out.map full) (m.out.map full) (m.out.map descr4)
+      (if w.failed then "err" else "ok") (if m.failed then "err" else "ok")
+      (toString (w.tailInterims contPlan)) (toString (m.tailInterims contPlan)) = true := by
+  intro m w
+  have hm : m = w := http1_continue_segmentation_independent refParser refParser_stable chunks
+  have hw : w = view refParser (run (compose contPlan refParser) [chunks.flatten]) :=
+    http1_continue_refines_dispatch refParser refParser_stable [chunks.flatten]
+  have hsame := run_sameUpTo core (compose contPlan refParser) (compose goodPlan refParser)
+    (compose_sameUpTo contPlan goodPlan refParser) [chunks.flatten]
+  have hd : ∀ l1 l2 : List (Msg Bytes Bytes), l1.map core = l2.map core → l1.map descr4 = l2.map descr4 := by
+    intro l1 l2 h
+    have : ∀ l : List (Msg Bytes Bytes), l.map descr4 = (l.map core).map (fun c => descr4 ⟨c.1, c.2.1, c.2.2, 0, 0⟩) := by
+      intro l; simp [core, descr4]
+    rw [this l1, this l2, h]
+  have hout : w.out = (run (compose contPlan refParser) [chunks.flatten]).out := by
+    rw [hw]; unfold view; split <;> rfl
+  have hfail : w.failed = (run (compose contPlan refParser) [chunks.flatten]).failed := by
+    rw [hw]; unfold view; split <;> simp_all
+  simp only [specH1X, hm, beq_self_eq_true, Bool.true_and, Bool.and_eq_true, beq_iff_eq]
+  refine ⟨?_, ?_⟩
+  · rw [hout]; exact hd _ _ hsame.1
+  · rw [hfail, hsame.2.2]
+
+-- non-vacuity and the negation witnesses.  `POST /a` with `Expect: 100-continue`, `Content-Length: 2`, body `hi`,
+-- followed by the pipelined `GET /b`
+def xHead : Bytes := [80,79,83,84,32,47,97,32,72,84,84,80,47,49,46,49,13,10,69,120,112,101,99,116,58,32,49,48,48,45,99,111,110,116,105,110,117,101,13,10,67,111,110,116,101,110,116,45,76,101,110,103,116,104,58,32,50,13,10,13,10]
+def xBody : Bytes := [104, 105]
+def xMsg (pl : Plan) : Msg Bytes Bytes := Msg.cont pl xHead xBody
+example : refParser.rl xHead = .head xHead xHead.length ∧ refParser.cb xHead xBody = .frame xBody 2 := by decide
+example : refParser.rl (xHead ++ xBody ++ h1B) = .head xHead xHead.length := by decide
+example : Faithful goodPlan := ⟨rfl, rfl⟩
+-- the regenerated loop: body in the read of the head, straddling, later, one byte per read — always the same two requests
+example : (runC goodPlan refParser [xHead ++ xBody ++ h1B]).out = [xMsg goodPlan, Msg.plain h1B []] := by decide
+example : (runC goodPlan refParser [xHead ++ [104], [105] ++ h1B]).out = [xMsg goodPlan, Msg.plain h1B []] := by decide
+example : (runC goodPlan refParser [xHead, xBody, h1B]).out = [xMsg goodPlan, Msg.plain h1B []] := by decide
+example : (runC goodPlan refParser [xHead]).pend = some xHead ∧ (runC goodPlan refParser [xHead]).buf = [] ∧
+    (runC goodPlan refParser [xHead]).tailInterims goodPlan = 1 := by decide
+/-- a continue branch guarded by `conn.br.Buffered() == 0` is NOT segmentation independent: when one read holds head and
+body, the request is handed on WITHOUT its body and the body bytes are parsed as the head of the next request (`hiGET /b`);
+when the body comes in a later read everything is right. -/
+def guardedPlan : Plan := { goodPlan with guarded := true }
+example : (runC guardedPlan refParser [xHead ++ xBody ++ h1B]).out = [Msg.plain xHead [], Msg.plain (xBody ++ h1B) []] ∧
+    (runC guardedPlan refParser [xHead, xBody ++ h1B]).out = [xMsg guardedPlan, Msg.plain h1B []] := by decide
+/-- `conn.br.Reset(conn)` between the phases: a body that came in the read of the head is destroyed — serve() waits inside
+`ContinueReadBody` for bytes that were already delivered, and takes the next request for the body -/
+def resetPlan : Plan := { goodPlan with resetBetween := true }
+example : (runC resetPlan refParser [xHead ++ xBody]).out = [] ∧ (runC resetPlan refParser [xHead ++ xBody]).pend = some xHead ∧
+    (runC resetPlan refParser [xHead, xBody]).out = [xMsg resetPlan] := by decide
+-- the classification of the regenerated statements sees both
+example : opOf "call:Buffered" = .look ∧ opOf "call:Reset" = .destroy := by decide
+-- `Expect: 100-Continue` (value in mixed case) is not continued by fasthttp; `expect:` in lower case is
+example : expects (xHead.set 26 67) = false ∧ hasExpect (xHead.set 26 67) = true ∧ expects (xHead.set 18 101) = true := by decide
+
+/-- fasthttp v1.40.0 `ReadTrailer` (KNOWN_FINDINGS): the trailer section `X: 1 CRLF CRLF` adds ONE header entry when it
+arrives in one read and TWO when a read ends behind the first line — the header handed on depends on the segmentation. -/
+def trailerSec : Bytes := [88, 58, 32, 49, 13, 10, 13, 10]
+theorem trailer_multiplicity_depends_on_reads :
+    trailerAppends trailerSec (attemptsOf 0 8 [8]) = 1 ∧ trailerAppends trailerSec (attemptsOf 0 8 [6, 8]) = 2 ∧
+    trailerAppends trailerSec (attemptsOf 0 8 [3, 6, 7, 8]) = 3 := by decide
+
+end Http1Continue
+
+/-! ### bolt v1 frames on a boltv2 connection: a complete frame is handed on no matter what follows (kinds `seg` / `cuts`,
+harness/c07/boltmix.go) -/
+section BoltHandover
+open MosnVerif.Model.FrameBytes MosnVerif.Model.FrameSteps MosnVerif.Lemmas.BoltHandover
+
+/-- **boltv2_decodes_v1_frames_like_bolt**: over the regenerated guard, first-byte test and minimum lengths of both
+`Decode` functions: on a boltv2 connection a non-empty buffer whose first byte is the bolt v1 protocol code gets exactly
+the answer of the v1 codec — with v1's own minimum length (20), NOT boltv2's (22) — whatever its length. -/
+theorem boltv2_decodes_v1_frames_like_bolt (b : Bytes) (hb : 0 < b.length) (h1 : u8 b 0 = 1) :
+    frameStep_boltv2 b = frameStep_bolt b := frameStep_v1_on_v2 b hb h1
+
+theorem bolt_decodes_v2_frames_like_boltv2 (b : Bytes) (hb : 0 < b.length) (h2 : u8 b 0 = 2) :
+    frameStep_bolt b = frameStep_boltv2 b := frameStep_v2_on_v1 b hb h2
+
+/-- **complete_v1_frame_delivered_whatever_follows**: a frame the v1 codec accepts is handed on by boltv2's `Decode` as
+soon as it is complete: with nothing behind it (last data of the connection, or the read ended right behind it) and with
+anything behind it. -/
+theorem complete_v1_frame_delivered_whatever_follows (f : Bytes) (h1 : u8 f 0 = 1)
+    (hf : frameStep_bolt f = .frame f f.length) (e : Bytes) : frameStep_boltv2 (f ++ e) = .frame f f.length := by
+  have hpos := (stable_bolt.pos f f f.length hf).1
+  have : frameStep_boltv2 f = .frame f f.length := by rw [boltv2_decodes_v1_frames_like_bolt f hpos h1]; exact hf
+  exact stable_boltv2.ext f f f.length e this
+
+/-- **mixed_bolt_stream_delivered**: a stream on a boltv2 connection made of v2 frames boltv2 accepts and v1 frames the
+v1 codec accepts (of ANY length from 20 bytes on), followed by an incomplete frame, in any segmentation: exactly those
+frames, in order, each once; the tail stays in the buffer.  In particular a short v1 frame at the END of the stream is
+delivered. -/
+theorem mixed_bolt_stream_delivered (fs : List Bytes) (t : Bytes)
+    (hv : ∀ f ∈ fs, (u8 f 0 = 1 ∧ frameStep_bolt f = .frame f f.length) ∨ frameStep_boltv2 f = .frame f f.length)
+    (ht : TailOk frameStep_boltv2 t) (chunks : List Bytes) (hc : chunks.flatten = fs.flatten ++ t) :
+    run frameStep_boltv2 chunks = { buf := t, out := fs, failed := false } := by
+  refine valid_stream_delivered frameStep_boltv2 stable_boltv2 fs t (fun f hf => ?_) ht chunks hc
+  rcases hv f hf with ⟨h1, h2⟩ | h
+  · simpa using complete_v1_frame_delivered_whatever_follows f h1 h2 []
+  · exact h
+
+-- a bolt v1 heartbeat acknowledgement: response, no class, no header, no content = 20 bytes
+def v1resp20 : Bytes := [1, 0, 0, 0, 1, 0, 0, 0, 7, 1, 0, 0, 0, 0, 0, 0, 0, 0, 0, 0]
+-- a boltv2 heartbeat request: 24 bytes
+def v2req24 : Bytes := [2, 1, 1, 0, 0, 1, 0, 0, 0, 9, 1, 0, 0, 0, 0, 0, 0, 0, 0, 0, 0, 0, 0, 0]
+example : frameStep_bolt v1resp20 = .frame v1resp20 20 ∧ u8 v1resp20 0 = 1 := by decide
+example : frameStep_boltv2 v1resp20 = .frame v1resp20 20 ∧ frameStep_boltv2 (v1resp20.take 19) = .needMore := by decide
+example : (run frameStep_boltv2 [v2req24 ++ v1resp20]).out = [v2req24, v1resp20] ∧
+    (run frameStep_boltv2 [v2req24 ++ v1resp20]).buf = [] := by decide
+/-- a hand-over placed BEHIND boltv2's own minimum length (`if data.Len() >= LessLen { if code == bolt.ProtocolCode … }`)
+is not prompt: the complete 20-byte v1 frame is answered with "need more data" until two bytes of a LATER frame are
+buffered behind it, and is never handed on when it is the last data of the connection. -/
+def lateHdr (b : Bytes) : Hdr := if !MosnVerif.Gen.FrameLen.boltv2_enough b.length then .needMore else boltHdr true b
+example : envelope lateHdr (boltOk true) v1resp20 = .needMore ∧
+    envelope lateHdr (boltOk true) (v1resp20 ++ [2, 1]) = .frame v1resp20 20 := by decide
+example : (run (envelope lateHdr (boltOk true)) [v2req24 ++ v1resp20]).out = [v2req24] ∧
+    (run (envelope lateHdr (boltOk true)) [v2req24 ++ v1resp20]).buf = v1resp20 := by decide
+
+end BoltHandover
+/-! ## [c08p10] the selection theorems over the REGENERATED matchers (Gen/C08Matchers: the Go matcher bodies translated
+statement by statement; `Lemmas/CheckedMatchEq.genMatcherOf_eq`: they are the hand model's functions) -/
+section c08p10gen
+open MosnVerif.Lemmas.CheckedMatchEq
+
+/-- **match_monotone_gen**: every REGENERATED protocol matcher is monotone: an answer `success` or `failed` on a prefix
+is final on every extension -/
+theorem match_monotone_gen (name : String) (m : Bytes → MR) (h : genMatcherOf name = some m) : Monotone m :=
+  match_monotone name m (by rw [← genMatcherOf_eq]; exact h)
+
+/-- **select_failed_is_final_gen**: over the REGENERATED matchers of any scope, a failed selection is final on every
+extension, for every stream -/
+theorem select_failed_is_final_gen (names : List String) (p e : Bytes) (h : select (genScopeOf names) p = .failed) :
+    select (genScopeOf names) (p ++ e) = .failed := by
+  rw [genScopeOf_eq] at h ⊢
+  exact select_failed_is_final names p e h
+
+/-- … and so is a selected protocol on streams on which at most one matcher of the scope can ever succeed -/
+theorem select_deterministic_gen_partial (names : List String) (p e : Bytes) (hx : Exclusive (genScopeOf names) p)
+    (n : String) (h : select (genScopeOf names) p = .proto n) : select (genScopeOf names) (p ++ e) = .proto n := by
+  rw [genScopeOf_eq] at hx h ⊢
+  exact select_deterministic_partial names p e hx n h
+
+-- non-vacuity: the regenerated tars matcher waits on 5 bytes, accepts a complete 6-byte package, refuses version 2
+example : (genMatcherOf "tars").map (fun m => (m [0, 0, 0, 6, 0x10], m [0, 0, 0, 6, 0x10, 1], m [0, 0, 0, 6, 0x10, 2])) =
+    some (.again, .success, .failed) := by decide
+end c08p10gen
 
 end MosnVerif.Props.C07
